@@ -9,7 +9,9 @@ fault point of spec/IOWrite.tla (which also model-checks the modelled step
 sequence against the stream contract) and each behaviour is replayed against
 the real calmjs.parse.io.write / io.read with instrumented stream doubles
 that raise at the chosen call.
-code -> spec: the recorded event logs and outcome facts are validated by
+code -> spec: the recorded event logs (which go on after the call returned:
+what a later call of the helper does to the streams of an earlier one is
+part of their history) and outcome facts are validated by
 spec/StreamTrace.tla; differences between the recorded log and the log the
 model predicted are reported as drift (not a violation).
 """
@@ -47,8 +49,17 @@ class Double(object):
         self.buf = []
         self.text = text
         self.closed = 0
+        self.sealed = False     # set when the call it was made for returned
+        self.late = 0
 
     def _op(self, op):
+        if self.sealed:
+            # touched by a LATER call of the helper: the event still belongs
+            # to this stream's history (first few kept, the rest counted)
+            self.late += 1
+            if self.late <= 3:
+                self.log.append([self.label, op, True])
+            return
         n = self.counts.get(op, 0) + 1
         self.counts[op] = n
         want = self.fail.get(op)
@@ -121,6 +132,7 @@ def replay(beh, program, cfg, names):
         except Exception:
             rec['raisedAnything'] = rec['propagated'] = True
         rec['log'] = log
+        s.sealed = True
         return rec
     # ---- write ----------------------------------------------------------
     printer = {'pretty': pretty_printer('  '), 'minify': minify_printer(),
@@ -166,6 +178,7 @@ def replay(beh, program, cfg, names):
         rec['raisedAnything'] = rec['propagated'] = True
     rec['log'] = log
     rec['nwrites'] = nwrites
+    out.sealed = mp.sealed = True
     if not rec['faulted'] and not rec['raisedAnything']:
         # content facts against the lower-level API
         ref_out = pyio.StringIO()
@@ -262,6 +275,7 @@ def main(tier, seed, replay_case=None):
                     rep.count('evaluations')
                     if beh[4][0] != 'none' or beh[2] != 'none':
                         nontrivial.add((json.dumps(beh[:5]), program, cfg))
+                    rec['returned_at'] = len(rec['log'])
                     if [list(e) for e in beh[5]] != rec['log']:
                         drift += 1
                         rep.notes.setdefault('drift_examples', [])
